@@ -326,7 +326,7 @@ def tree_check(ctx, props, focus, replay=None):
         kind = rng.choice(['small', 'small', 'str', 'bin', 'case'])
         nk = rng.choice([3, 6, 10, 16, 26]) if kind == 'small' else rng.choice([6, 20, 40])
         keys = key_universe(rng, nk, kind)
-        cmpn = rng.choice(['byte', 'byte', 'rev', 'len', 'ci']) if kind != 'case' else 'ci'
+        cmpn = rng.choice(['byte', 'byte', 'rev', 'len', 'ci', 'errno']) if kind != 'case' else 'ci'
         hists.append((['cmp ' + cmpn, 'dump 1'], gen_history(rng, 150 if quick else 300, keys, mixes[mixname])))
     # histories with more than 256 traversal starts (8-bit epoch) and root changes in between
     for i in range(2 if quick else 12):
@@ -374,6 +374,14 @@ def tree_check(ctx, props, focus, replay=None):
             ops += ['put %s 02' % hexs(bytes([0x41 + j, 0])) for j in range(rng.choice([1, 3]))]
         ops += ['walk 1'] * 255 + ['walk %d' % (len(keys) + 6)]
         hists.append((['cmp byte', 'dump 1', 'settid %d' % rng.choice([200, 250, 254])], ops))
+    # the wrap of the sequencer may fall on the reset at the END of a complete walk (after an odd number of abandoned walks): the marks
+    # of that walk (255 on every node) must not survive it - a abandoned walks, (255-a)/2 complete walks, p abandoned walks, complete walk
+    for a_ in (1, 3, 5):
+        for p_ in (252, 253, 254):
+            keys = key_universe(rng, 6, 'small')
+            ops = ['put %s 01' % hexs(k) for k in keys]
+            ops += ['walk 1'] * a_ + ['walk 8'] * ((255 - a_) // 2) + ['walk 1'] * p_ + ['walk 8', 'walk 8']
+            hists.append((['cmp byte', 'dump 1'], ops))
     # a node released by remove must not bring an old mark back: complete walk, remove, drive the sequencer around (r walk starts,
     # on this table or on another one), insert NEW keys, walk completely
     for r in ([250, 252, 253, 254, 255, 256, 257, 506, 509, 510, 511, 512] if not quick else [252, 253, 254, 255, 256, 510]):
